@@ -159,7 +159,11 @@ def staged_check(rep, rule, key, S, body, args, steps, final, loc=None, sample=N
     matched = []
 
     def hook(v):
-        if isinstance(v, (Struct, Tuple, Array)) or not isinstance(v, (RatFunc, Ite)):
+        if isinstance(v, (Tuple, Array)):
+            # destructuring `let [a, b, c] = …` / `let (s, c) = …`: match element by element
+            items = [hook(x) for x in v.items]
+            return type(v)(items) if any(a is not b for a, b in zip(items, v.items)) else v
+        if isinstance(v, Struct) or not isinstance(v, (RatFunc, Ite)):
             return v
         for name in order:
             if name in matched:
@@ -181,6 +185,15 @@ def staged_check(rep, rule, key, S, body, args, steps, final, loc=None, sample=N
     # a quantity bound directly to the result (no `let`) is matched here
     v = hook(v) if not isinstance(v, (Struct, Tuple, Array)) else v
     missing = [n for n in order if n not in matched]
+    if missing:
+        # quantities the code never binds on their own are expanded in the expected result
+        try:
+            env2 = {}
+            for name, fn in steps:
+                env2[name] = env[name] if name in matched else fn(R, env2)
+            exp = final(R, env2)
+        except (Opaque, poly.TooBig) as ex:
+            return rep.fail(rule, key, "reference not constructible after matching: %s" % ex, loc or S.F.loc(body))
     try:
         mm = alg.compare(v, exp, S.ctx)
     except (Opaque, poly.TooBig) as ex:
